@@ -2,7 +2,7 @@
 From Coq Require Import ZArith List Bool.
 Import ListNotations.
 Require Import Nib.C03.Model Nib.C03.Ref Nib.C03.Spec Nib.C03.Proofs.
-Open Scope Z_scope.
+Local Open Scope Z_scope.
 
 (** The boolean checker evaluated on implementation traces is sound for [P]. *)
 Theorem C03_checker_sound : forall t, Pb t = true -> P t.
